@@ -40,6 +40,15 @@ def make_interp(repo, algebra_attrs: Optional[Dict[str, Any]] = None, algebra_me
     alg = Obj("algebra", attrs, methods)
     it = Interp(repo, tables, reg, algebra=alg, **kw)
 
+    def operator_attr(name):
+        # self.algebra.<op>(a, b) on the stand-in algebra applies the registry operator to operator trees
+        if name in reg:
+            return PyFunc(lambda *a: it.apply_op(name, list(a), next((x.cls for x in a if isinstance(x, T)), "MultiVector")),
+                          f"algebra.{name}", True)
+        return Unk(f"algebra.{name}")
+    if "__getattr__" not in alg.methods:
+        alg.methods["__getattr__"] = operator_attr
+
     def class_call(name, args, kwargs):
         if name == "TapeRecorder":
             names = ["algebra", "expr", "keys"]
